@@ -1096,6 +1096,10 @@ class Projected3dROI(Roi):
     def rotate_to(self, theta):
         return self.roi_2d.rotate_to(theta)
 
+    def rotate_by(self, dtheta, **kwargs):
+        # (the angle to add to is that of the 2-d region, this class has none)
+        return self.roi_2d.rotate_by(dtheta, **kwargs)
+
 
 class Path(VertexROIBase):
 
